@@ -42,7 +42,9 @@ prop("C01", [
     dict(engine="verus", unit="pool"),
     # every SQL stub contract the C01 proof rests on: in-use test, the client's own rows (via the C09 checks), and the upsert
     # (allocate_address/C10: the row written names the requesting client with the reply's window; C13: nothing else changes)
-    dict(POOL_B, checks=["sql_in_use", "select_new_address", "allocate_address/C01", "allocate_address/C09", "allocate_address/C10", "allocate_address/C13"]),
+    # ... "and a server restart": what was recorded is what the restarted server finds (durability of every recorded lease)
+    dict(POOL_B, checks=["sql_in_use", "select_new_address", "allocate_address/C01", "allocate_address/C09", "allocate_address/C10", "allocate_address/C13",
+                         "reopen/rows-survive-close-and-reopen", "reopen/every-recorded-lease-is-durable"]),
 ], explanation="allocate_address never grants an address on which another client has an unexpired row; lemma over that contract; SQL contracts bounded on real SQLite",
     assumptions=["pool mutex: handlers verified as a single task (true interleaving not modelled)",
                  "wall clock monotone and below 0xF0000000 (Pool::verif_now stub)",
@@ -50,13 +52,14 @@ prop("C01", [
 prop("C09", [
     dict(engine="verus", unit="pool", fns=["Pool::select_requested_address", "Pool::select_new_address", "Pool::select_address", "Pool::allocate_address"]),
     dict(engine="verus", unit="dhcphandlers", fns=["handle_request", "handle_discover"]),
-    dict(POOL_B, checks=["sql_in_use", "allocate_address/C09"]),
+    # (the record written for a grant names the client: it is what "holds" means for the next message -- allocate_address/C10, C13 frame)
+    dict(POOL_B, checks=["sql_in_use", "allocate_address/C09", "allocate_address/C10", "allocate_address/C13"]),
 ], explanation="select_address: a held in-pool address is kept (requested one first); refusal only on exhaustion",
     assumptions=["SQL statement contracts assumed; engine B bounded", "Display/FromStr of Ipv4Addr are inverse on canonical text (axioms)"])
 prop("C10", [
     dict(engine="verus", unit="dhcphandlers", fns=["handle_discover", "handle_request", "handle_pkt", "Pool::allocate_address", "Pool::select_address"]),
     dict(engine="verus", unit="dhcpgetters"),
-    dict(POOL_B, checks=["allocate_address/C10"]),
+    dict(POOL_B, checks=["allocate_address/C10", "handlers/reply-backed-by-record"]),
 ], explanation="OFFER and ACK carry option 51 = recorded expiry - start, within [300, 86400] (defaults), record starts at the reply time",
     assumptions=["policies cannot change min/max lease (apply_policies frame, assumed here)", "ResponseOptions / DhcpOptions accessor contracts assumed in unit dhcphandlers (HashMap glue)"])
 prop("C13", [
@@ -64,7 +67,7 @@ prop("C13", [
     dict(engine="verus", unit="dhcpgetters"),
     # "a request that matches no configured pool is not answered": which policies a request matches (all conditions of a policy must hold)
     dict(engine="verus", unit="policy", fns=["check_policy", "check_policies", "apply_policy", "apply_policies"]),
-    dict(POOL_B, checks=["allocate_address/C13"]),
+    dict(POOL_B, checks=["allocate_address/C13", "handlers/reply-backed-by-record"]),
 ], explanation="dispatch on message type, foreign server-id refused before any pool access, errors leave the table unchanged, a reply touches only the row of yiaddr and echoes xid/chaddr/giaddr/flags; "
                "a request is served from a policy only if every condition of that policy holds (unit policy), no policy => NoPolicyConfigured / NoLeasesConfigured, nothing written",
     assumptions=["ResponseOptions / DhcpOptions accessor contracts assumed in unit dhcphandlers (HashMap glue); the DhcpParse impls behind them are proved in unit dhcpgetters"])
@@ -212,6 +215,8 @@ prop("C07", [
 
 prop("C08", [
     dict(engine="verus", unit="acl"),
+    # which address the DNS ACL judges: the peer of the datagram / TCP connection (emission-point precondition of the ACL layer)
+    dict(engine="verus", unit="dnsreply", fns=["run_udp_reply", "run_tcp_reply", "DnsListenerHandler::recv_in_query", "DnsListenerHandler::build_dns_message"]),
     dict(engine="kani", sets=["config_prefix", "acl_check"]),
 ], explanation="require_permission grants <=> the first matching rule exists and grants the permission (Acl::check, check_authenticated via R17d/R17e, require_permission); "
                "entry points: the welcome page, /metrics, the lease listing and the DNS handler chain behind DnsAclHandler are reachable only with the matching permission token (emission-point preconditions), refusal => 403 / RefusedByAcl; "
